@@ -11,7 +11,9 @@ Accepted statement forms (anything else raises Unsupported => broken obligation)
   if [not] <p>.is_file()|.exists(): <one primitive>            -> IfFile / IfNotFile
   self.last_save_time = time.time()              pure
   logging.getLogger(..).debug|info(..)           pure (may mention bound names only)
-Paths: self.autosave_file | alias | <path>.with_suffix(".xyz")   (".dat" is the advertised suffix).
+Paths: self.autosave_file | alias | <path>.with_suffix(".xyz") -> Sfx "xyz" (last suffix replaced) |
+       <adv>.with_name(<adv>.name + ".xyz") -> App "xyz" (appended).  Whether two of them are the same file depends
+       on how the advertised name ends; the model evaluates every class (Model/Fs.v: canon, all_classes).
 """
 from __future__ import annotations
 
@@ -51,9 +53,19 @@ class _T:
             suf = e.args[0].value
             if not (suf.startswith(".") and len(suf) > 1 and suf[1:].isalnum()):
                 raise Unsupported(f"suffix {suf!r}")
-            if suf == ADV_SUFFIX:
-                return "Adv"
             return f'(Sfx "{suf[1:]}")'
+        # <adv>.with_name(<adv>.name + ".xyz"): the suffix is APPENDED to the advertised file name
+        if (isinstance(e, ast.Call) and isinstance(e.func, ast.Attribute) and e.func.attr == "with_name"
+                and len(e.args) == 1 and not e.keywords and isinstance(e.args[0], ast.BinOp)
+                and isinstance(e.args[0].op, ast.Add) and isinstance(e.args[0].right, ast.Constant)
+                and isinstance(e.args[0].right.value, str) and isinstance(e.args[0].left, ast.Attribute)
+                and e.args[0].left.attr == "name"):
+            if self.path(e.func.value) != "Adv" or self.path(e.args[0].left.value) != "Adv":
+                raise Unsupported(f"with_name on a path other than the advertised one: `{_src(e)}`")
+            suf = e.args[0].right.value
+            if not (suf.startswith(".") and len(suf) > 1 and suf[1:].isalnum()):
+                raise Unsupported(f"suffix {suf!r}")
+            return f'(App "{suf[1:]}")'
         raise Unsupported(f"path expression `{_src(e)}`")
 
     def is_path(self, e) -> bool:
@@ -205,9 +217,6 @@ def translate(source: str, cls: str = "MPSBackendImpl", fn: str = "save_simulati
         raise Unsupported(f"{cls}.{fn} not found")
     if [a.arg for a in fdef.args.args] != ["self"] or fdef.decorator_list:
         raise Unsupported("signature of save_simulation")
-    # the advertised-name convention the model relies on
-    if f'+ "{ADV_SUFFIX}"' not in source and f"+ '{ADV_SUFFIX}'" not in source:
-        raise Unsupported("autosave file name no longer ends in .dat")
     t = _T()
     for i, s in enumerate(fdef.body):
         t.stmt(s, i == 0)
